@@ -194,6 +194,9 @@ def run_case(case):
         # the PPMd library alone cannot round-trip this stream: one mechanism, whatever the symptom
         viol = [{"key": "codec-library/pyppmd-roundtrip", "what": "pyppmd %s cannot round-trip this input by itself (symptom here: %s)" % (
             [c for c in case["chain"] if c["f"] == "PPMD"], viol[0]["what"][:150])}]
+    if viol and case["chunk"] and case["chunk"] <= 8 and K.pybcj_small_feed_faulty(case["chain"], [b for _, b in members], case["chunk"]):
+        viol = [{"key": "codec-library/pybcj-small-feeds", "what": "pybcj %s decoder alone mis-decodes when fed %d-byte pieces (symptom here: %s)" % (
+            [c["f"] for c in case["chain"] if c["f"] in G.BCJ], case["chunk"], viol[0]["what"][:150])}]
     if viol:
         # one entry per distinct key
         seen = {}
